@@ -7,7 +7,7 @@ from .ops import (fresh, list_len, list_get, list_set, list_append, list_concat,
                   list_repeat, val_eq, truth, znot, zand, zor, zimplies, zite, zmin, zmax, to_symbolic, desc_of)
 from .interp import InterpBase, Frame, parse_expr
 
-SPEC_FUNCS = {"forall", "exists", "implies", "ite", "old", "seq_eq", "iff", "let", "count_true",
+SPEC_FUNCS = {"forall", "exists", "implies", "ite", "old", "prev", "seq_eq", "iff", "let", "count_true",
               "is_none", "opt_val", "strlen", "char_at", "substr", "in_re", "fresh_int", "imin", "imax",
               "to_real", "distinct", "seq", "lam_seq", "str_of_int", "absv", "present", "iter_pos", "py_strip", "py_lower", "py_upper", "np_cast", "in_re"}
 
@@ -493,10 +493,10 @@ class EvalMixin(InterpBase):
         # spec-level forms that must see the AST
         if isinstance(node.func, ast.Name):
             nm = node.func.id
-            if nm == "old" and fr.spec:
+            if nm in ("old", "prev") and fr.spec:
                 if id(node) in fr.olds:
                     return fr.olds[id(node)]
-                raise EngineError("old() evaluated outside a postcondition")
+                raise EngineError(f"{nm}() evaluated outside a postcondition / loop step clause")
             if nm in ("forall", "exists") and fr.spec:
                 return self.quantifier(node, fr, nm)
             if nm == "implies" and fr.spec and len(node.args) == 2:
